@@ -24,3 +24,8 @@ ASSUMPTIONS = [
 
 # dimensions added in seeded rounds 6 and 7
 PROBES = list(PROBES) + ["derived-cube-made-in-mid-history", "derived-cube-retuned", "read-only-cube-refused"]
+
+# dimensions added in seeded round 9
+PROBES = list(PROBES) + ["implied-shift-beyond-2^20-bins"]
+RULE = RULE + (" Round 9: 12% of histories re-tune an hour-long fold of a 1-2.5 ms period to harmonics (2P, P/2, 3P/2, 3P): drifts of tens of millions of bins (beyond 2^24); "
+               "the absolute model is skipped beyond 2^20 bins (float32 drift formula), history independence and return-to-fold remain.")
